@@ -7,7 +7,7 @@ import sys
 
 from vlib import docs as D
 from vlib import gt
-from vlib.par import pmap
+from vlib.par import pmap, timeout_failure
 
 PROPERTY = 'C07'
 LEVEL = 'other'
@@ -131,7 +131,7 @@ def replay(entry, repo_root):
 def bounded(tier, seed, repo_root):
     seeds = list(range(0, 6 if tier == 'quick' else 32))
     jobs = [(i, fl, seeds, repo_root) for i in range(len(CORPUS)) for fl in FLAGSETS]
-    fails = [f for fs in pmap(_seed_job, jobs, repo_root, chunksize=1) for f in fs]
+    fails = [f for fs in pmap(_seed_job, jobs, repo_root, chunksize=1, job_timeout=400, on_timeout=timeout_failure('C07')) for f in fs]
     rnd = random.Random(seed)
     docs = D.enum_docs(4, atoms=[0, "ab", None], keys=['a', 'b', 'c'])
     pj = [(rnd.choice(docs), rnd.choice(docs), gt.OPTION_COMBOS[rnd.randrange(9)]) for _ in range(3000 if tier == 'quick' else 30000)]
@@ -144,7 +144,7 @@ def bounded(tier, seed, repo_root):
     pdocs = [d for d in docs if 'None' not in repr(d)]       # plist has no null (C13 finding plist-null)
     pj += [(('plist', rnd.choice(pdocs)), ('plist', rnd.choice(pdocs)), gt.OPTION_COMBOS[rnd.randrange(9)]) for _ in range(n_other)]
     pj += [(('pyobj', rnd.choice(docs)), ('pyobj', rnd.choice(docs)), gt.OPTION_COMBOS[rnd.randrange(9)]) for _ in range(n_other)]
-    fails += [f for fs in pmap(_purity_job, pj, repo_root) for f in fs]
+    fails += [f for fs in pmap(_purity_job, pj, repo_root, job_timeout=60, on_timeout=timeout_failure('C07')) for f in fs]
     return [{
         'name': 'C07.hash-seeds-and-purity', 'bound': f"{len(CORPUS)} corpus pairs with 3-6 unshared keys x {len(FLAGSETS)} flag sets x "
         f"PYTHONHASHSEED in 0..{len(seeds) - 1} (subprocesses); {len(pj)} document pairs (JSON, XML, CSV, plist wrapper, pydiff objects): structural and identity-level snapshots before/after diff()+print, two "
